@@ -1,16 +1,21 @@
 // Unit pullcfg — property C02 for `git pull`: does git-ai know THAT the pull rebased / autostashed, and does it then capture the
 // pending attribution BEFORE the pull and put it / the working log / the rebase rewrite at the right commits AFTER it.
 //   * get_pull_rebase_autostash_config is checked against git's DOCUMENTED decision (git-pull(1), git-config(1), parse-options):
-//     command line (last of -r / --rebase[=<v>] / --no-rebase counts)  >  branch.<name>.rebase  >  pull.rebase  >  merge;
-//     every value other than a `false` spelling means a rebase; rebase.autoStash counts only when rebasing and only without
-//     --autostash / --no-autostash.  Where the code does NOT follow that reading the argument vectors / configurations are named
-//     deviation classes (`dev_*`): they are FINDINGS (REPORT.md, demo_e2e.rs), never encoded as expected behaviour.
+//     command line (last of -r / --rebase[=<v>] / --no-rebase in front of `--` counts)  >  branch.<name>.rebase  >  pull.rebase  >
+//     merge; every value other than a `false` spelling (false / no / off / 0 / empty, any case) means a rebase; rebase.autoStash
+//     (true / yes / on / 1) counts only when rebasing and only without --autostash / --no-autostash.  The findings F1 (branch
+//     setting), F2 (--rebase=<value>), F3 (the last word counts), the boolean spellings and the lowercased rebase.autostash key
+//     were REPAIRED in /repo (56a32878) and are REQUIRED now.  What remains a deviation class (`dev_cli`): an ABBREVIATED option
+//     word (`--reb`) or a BUNDLED short option (`-qr`) - and an unreadable configuration.
 //   * the hooks are checked against an exact EFFECT log (as in unit switchhooks): a failed pull, an up-to-date pull -> no effect;
-//     captured attribution -> restore_stashed_va(old, NEW, the attribution captured before the pull), once; fast-forward ->
-//     the working log of old becomes the working log of new, once; rebase -> one RebaseComplete event old -> new with the commit
-//     lists computed for (old, new, @{upstream}), saved and applied; nothing else.
+//     captured attribution -> the old head's working log is DELETED, then restore_stashed_va(old, NEW, the attribution captured
+//     before the pull), once (712d4357: so the rebase migration cannot overwrite the restored attribution); fast-forward -> the
+//     working log of old becomes the working log of new, once; rebase -> one RebaseComplete event old -> new with the commit lists
+//     computed for (old, new, @{upstream}), saved and applied; a merge pull -> the working log of old becomes the working log of
+//     new (094fe5b2); nothing else.
 // Every git / file-system / VirtualAttributions call is a rule-O1 stub with an uninterpreted answer.
 use vstd::prelude::*;
+use vstd::std_specs::iter::IteratorSpec;
 verus! {
 
 // ================================================================== stand-ins (typing only) and the ghost world
@@ -26,13 +31,15 @@ pub enum GitAiError { Generic(String) }
 pub struct RepoStorage { pub _opaque: () }
 /// what a hook did to the notes / the pending attribution, in order
 pub enum Effect {
+    /// storage.delete_working_log_for_base_commit(base): ALL pending attribution recorded against `base` is dropped
+    DeleteLog { base: Seq<char> },
     /// storage.rename_working_log(from, to): the working log of `from` becomes the working log of `to` (the storage moves it only
-    /// when `to` has no working log yet)
+    /// when `from` has one and `to` has none yet)
     RenameLog { from: Seq<char>, to: Seq<char> },
     /// restore_stashed_va(repo, old, new, va) (contract: unit vamerge): va is merged into the working log of `new`
     RestoreVA { old: Seq<char>, new: Seq<char>, va: VirtualAttributions },
     /// repository.handle_rewrite_log_event(RebaseComplete { .. }, author, suppress, apply): the notes of `originals` are rewritten
-    /// onto `news`, the working log of `old` migrates to `new`
+    /// onto `news`, the working log of `old` (if there still is one) migrates to `new`
     Rewrite { old: Seq<char>, new: Seq<char>, interactive: bool, originals: Seq<Seq<char>>, news: Seq<Seq<char>>, suppress: bool, apply: bool },
 }
 /// the environment as the hook sees it (uninterpreted answers of git) plus the log of effects
@@ -98,6 +105,11 @@ fn opq_any_is(v: &Vec<String>, flag: &str) -> (r: bool)
 fn opq_head_target(r: &Repository) -> (o: Option<String>)
     ensures opt_view(o) == r.w@.head,
 { unimplemented!() }
+/// `repository.storage.delete_working_log_for_base_commit(sha)`
+#[verifier::external_body]
+fn opq_delete_log(r: &mut Repository, sha: &String) -> (o: Result<(), GitAiError>)
+    ensures logged(*old(r), *final(r), Effect::DeleteLog { base: sha@ }),
+{ unimplemented!() }
 /// `repository.storage.rename_working_log(a, b)`
 #[verifier::external_body]
 fn opq_rename_log(r: &mut Repository, a: &String, b: &String) -> (o: Result<(), GitAiError>)
@@ -158,23 +170,23 @@ pub open spec fn captured_ok(c0: CommandHooksContext, c1: CommandHooksContext, h
 // ================================================================== the git configuration (read stubs)
 /// regex::Regex::is_match(pattern, key)
 pub uninterp spec fn re_matches(p: Seq<char>, k: Seq<char>) -> bool;
-/// TRUSTED (regex semantics of ONE literal): an anchored alternation of two escaped literals matches exactly those two strings,
-/// case-sensitively.  A change of the pattern in /repo makes this axiom inapplicable (the proof then knows nothing about the matches).
+/// branch.<name>.rebase of a branch (config_get_regexp keeps the case of the subsection)
+pub open spec fn bkey(b: Seq<char>) -> Seq<char> { "branch."@ + b + ".rebase"@ }
+/// TRUSTED (regex semantics of ONE literal): the anchored alternation matches its two escaped literals and `branch.` <anything> `.rebase`.
+/// A change of the pattern in /repo makes this axiom inapplicable (the proof then knows nothing about what is asked).
 #[verifier::external_body]
 proof fn axiom_pull_pattern()
-    ensures forall|k: Seq<char>| re_matches(r"^(pull\.rebase|rebase\.autoStash)$"@, k) <==> (k == "pull.rebase"@ || k == "rebase.autoStash"@),
+    ensures
+        re_matches(r"^(pull\.rebase|rebase\.autostash|branch\..*\.rebase)$"@, "pull.rebase"@),
+        re_matches(r"^(pull\.rebase|rebase\.autostash|branch\..*\.rebase)$"@, "rebase.autostash"@),
+        forall|b: Seq<char>| re_matches(r"^(pull\.rebase|rebase\.autostash|branch\..*\.rebase)$"@, #[trigger] bkey(b)),
 { }
-pub open spec fn is_upper(c: char) -> bool { 'A' <= c && c <= 'Z' }
-/// Repository::config_get_regexp builds its keys from the LOWERCASED section and variable name
-pub open spec fn plain_lower_key(k: Seq<char>) -> bool { forall|i: int| 0 <= i < k.len() ==> !is_upper(#[trigger] k[i]) }
-/// the key names a variable with a subsection (`branch.<Name>.rebase`): two dots
-pub open spec fn has_subsection(k: Seq<char>) -> bool { exists|i: int, j: int| 0 <= i < j < k.len() && #[trigger] k[i] == '.' && #[trigger] k[j] == '.' }
-/// only the subsection keeps its case
-pub open spec fn cfg_keys_lowercased(cfg: Map<Seq<char>, Seq<char>>) -> bool { forall|k: Seq<char>| #[trigger] cfg.contains_key(k) && !plain_lower_key(k) ==> has_subsection(k) }
 #[verifier::external_body] pub struct CfgMap { _o: () }             // HashMap<String, String>
 #[verifier::external_body] pub struct CfgResult { _o: () }          // Result<HashMap<String, String>, GitAiError>
 pub uninterp spec fn cfg_view(m: CfgMap) -> Map<Seq<char>, Seq<char>>;
 pub uninterp spec fn cfgres_view(m: CfgResult) -> Option<Map<Seq<char>, Seq<char>>>;
+pub open spec fn lookup(m: Map<Seq<char>, Seq<char>>, k: Seq<char>) -> Option<Seq<char>> { if m.contains_key(k) { Some(m[k]) } else { None } }
+pub open spec fn opt_rview(o: Option<&String>) -> Option<Seq<char>> { match o { Some(s) => Some(s@), None => None } }
 impl CfgResult {
     /// Result::unwrap_or_default: the map, or the empty map
     #[verifier::external_body]
@@ -186,35 +198,66 @@ impl CfgMap {
     /// HashMap::get
     #[verifier::external_body]
     pub fn get(&self, k: &str) -> (r: Option<&String>)
-        ensures match r { Some(v) => cfg_view(*self).contains_key(k@) && cfg_view(*self)[k@] == v@, None => !cfg_view(*self).contains_key(k@) },
+        ensures opt_rview(r) == lookup(cfg_view(*self), k@),
     { unimplemented!() }
 }
-/// what config_get_regexp(pattern) reports of a configuration: the entries whose (lowercased) key the pattern matches
+/// what config_get_regexp(pattern) reports of a configuration: the entries whose key the pattern matches
 pub open spec fn cfg_selected(cfg: Map<Seq<char>, Seq<char>>, p: Seq<char>) -> Map<Seq<char>, Seq<char>> {
     cfg.restrict(cfg.dom().filter(|k: Seq<char>| re_matches(p, k)))
 }
 impl Repository {
-    /// Repository::config_get_regexp (reads the configuration files; no effect).  PRECONDITION (what is asked): the pattern asks for pull.rebase
+    /// Repository::config_get_regexp (reads the configuration files; no effect).  PRECONDITION (what is asked): the pattern asks for
+    /// pull.rebase, for rebase.autostash (the key as the reader spells it: lowercased) and for branch.<current branch>.rebase
     #[verifier::external_body]
     pub fn config_get_regexp(&self, pattern: &str) -> (r: CfgResult)
-        requires re_matches(pattern@, "pull.rebase"@),
+        requires
+            re_matches(pattern@, "pull.rebase"@),
+            re_matches(pattern@, "rebase.autostash"@),
+            self.w@.branch matches Some(b) ==> re_matches(pattern@, bkey(b)),
         ensures cfgres_view(r) == (if self.w@.cfg_ok { Some(cfg_selected(self.w@.cfg, pattern@)) } else { None }),
-            self.w@.cfg_ok ==> cfg_keys_lowercased(self.w@.cfg),
     { unimplemented!() }
 }
+/// `repository.head().ok().and_then(|h| h.name().and_then(|n| n.strip_prefix("refs/heads/").map(|b| b.to_string()))).map(|b| format!("branch.{}.rebase", b))`:
+/// the configuration key of the branch HEAD is on (None: detached) - TRUSTED, checked by the replay sweep
+#[verifier::external_body]
+fn opq_branch_key(r: &Repository) -> (o: Option<String>)
+    ensures opt_view(o) == (match r.w@.branch { Some(b) => Some(bkey(b)), None => None }),
+{ unimplemented!() }
+pub open spec fn is_upper(c: char) -> bool { 'A' <= c && c <= 'Z' }
 pub open spec fn lc(c: char) -> char { if is_upper(c) { ((c as u8) + 32) as char } else { c } }
-/// equal up to ASCII case
-pub open spec fn ci_eq(a: Seq<char>, b: Seq<char>) -> bool { a.len() == b.len() && forall|i: int| 0 <= i < a.len() ==> lc(#[trigger] a[i]) == lc(b[i]) }
-/// `v.to_lowercase() != "<lit>"` / `== "<lit>"` for an all-lowercase ASCII literal: equality up to case (no non-ASCII character lowercases
-/// to a letter of `false` / `true`)
-#[verifier::external_body] fn opq_lower_ne(v: &String, lit: &str) -> (r: bool) ensures r == !ci_eq(v@, lit@), { unimplemented!() }
-#[verifier::external_body] fn opq_lower_eq(v: &String, lit: &str) -> (r: bool) ensures r == ci_eq(v@, lit@), { unimplemented!() }
+/// ASCII lowercasing (git compares boolean words with strcasecmp)
+pub open spec fn lower(s: Seq<char>) -> Seq<char> { Seq::new(s.len(), |i: int| lc(s[i])) }
+/// `value.to_lowercase()`: TRUSTED to agree with ASCII lowercasing where the result is compared with ASCII words (no other character
+/// lowercases to a letter of true / yes / on / false / no / off)
+#[verifier::external_body] fn opq_to_lower(v: &str) -> (r: String) ensures r@ == lower(v@), { unimplemented!() }
+/// TRUSTED: a `str` is its characters (the verifier reads a string-literal pattern as `==` on the str value)
+#[verifier::external_body]
+proof fn axiom_str_ext() ensures forall|a: &str, b: &str| #![trigger a@, b@] a@ == b@ ==> a == b, { }
+/// String == &str
+#[verifier::external_body] fn opq_str_is(a: &String, lit: &str) -> (r: bool) ensures r == (a@ == lit@), { unimplemented!() }
+/// str::strip_prefix
+#[verifier::external_body]
+fn opq_strip_prefix<'a>(a: &'a String, p: &str) -> (r: Option<&'a str>)
+    ensures match r { Some(v) => a@ == p@ + v@, None => !p@.is_prefix_of(a@) },
+{ unimplemented!() }
+/// Option::or_else with its documented meaning
+pub assume_specification<T, F: FnOnce() -> Option<T>> [Option::<T>::or_else] (o: Option<T>, f: F) -> (r: Option<T>)
+    requires o is None ==> f.requires(()),
+    ensures o is Some ==> r == o, o is None ==> f.ensures((), r);
 
 // ================================================================== git's reading of the argument vector and of the configuration
 pub open spec fn has_sep(a: Seq<Seq<char>>) -> bool { exists|i: int| 0 <= i < a.len() && #[trigger] a[i] == "--"@ }
 pub open spec fn sep_at(a: Seq<Seq<char>>, k: int) -> bool { 0 <= k < a.len() && a[k] == "--"@ && forall|j: int| 0 <= j < k ==> #[trigger] a[j] != "--"@ }
 /// where the options end: the first `--`, or the end of the vector (parse-options permutes: options may follow <repository> <refspec>)
 pub open spec fn opts_end(a: Seq<Seq<char>>) -> int { if has_sep(a) { choose|k: int| sep_at(a, k) } else { a.len() as int } }
+proof fn lemma_sep_unique(a: Seq<Seq<char>>, k: int)
+    requires sep_at(a, k),
+    ensures has_sep(a), opts_end(a) == k,
+{
+    let c = choose|c: int| sep_at(a, c);
+    if c < k { assert(a[c] != "--"@); }
+    if k < c { assert(a[k] != "--"@); }
+}
 /// parse-options: a short option may be bundled behind value-less short options (`-qr`)
 pub open spec fn bundle_has(t: Seq<char>, c: char, valueless: Set<char>) -> bool {
     t.len() >= 2 && t[0] == '-' && t[1] != '-' && exists|k: int| 1 <= k < t.len() && #[trigger] t[k] == c && forall|j: int| 1 <= j < k ==> valueless.contains(#[trigger] t[j])
@@ -224,17 +267,17 @@ pub open spec fn long_abbrev(t: Seq<char>, full: Seq<char>, min: int) -> bool { 
 /// git-pull(1): the short options that take no value (-v -q -r -n -e -a -f -k -t -p -4 -6 -u); -s -X -S -j -o take one
 pub open spec fn PULL_VALUELESS() -> Set<char> { set!['v', 'q', 'r', 'n', 'e', 'a', 'f', 'k', 't', 'p', '4', '6', 'u'] }
 /// git-config(1) boolean `false`: false / no / off / 0 / the empty string, in any case
-pub open spec fn is_false_value(v: Seq<char>) -> bool { ci_eq(v, "false"@) || ci_eq(v, "no"@) || ci_eq(v, "off"@) || v == "0"@ || v.len() == 0 }
+pub open spec fn is_false_value(v: Seq<char>) -> bool { lower(v) == "false"@ || lower(v) == "no"@ || lower(v) == "off"@ || lower(v) == "0"@ || lower(v) == ""@ }
 /// git-config(1) boolean `true`: true / yes / on / 1
-pub open spec fn is_true_value(v: Seq<char>) -> bool { ci_eq(v, "true"@) || ci_eq(v, "yes"@) || ci_eq(v, "on"@) || v == "1"@ }
+pub open spec fn is_true_value(v: Seq<char>) -> bool { lower(v) == "true"@ || lower(v) == "yes"@ || lower(v) == "on"@ || lower(v) == "1"@ }
+/// the value of `--rebase=<value>`: a value other than a `false` spelling means a rebase (an invalid value makes git fail: the hooks then do nothing)
+pub open spec fn rb_value(t: Seq<char>) -> Option<bool> { if "--rebase="@.is_prefix_of(t) { Some(!is_false_value(t.subrange(9, t.len() as int))) } else { None } }
 /// git-pull(1) `-r`, `--rebase[=false|true|merges|interactive]`, `--no-rebase`: what ONE token says about rebasing (`--reb` is the shortest
-/// unambiguous prefix next to --recurse-submodules / --refmap, `--no-reb` next to --no-recurse-submodules); a value other than a
-/// `false` spelling means a rebase (an invalid value makes git fail: the hooks then do nothing)
+/// unambiguous prefix next to --recurse-submodules / --refmap, `--no-reb` next to --no-recurse-submodules)
 pub open spec fn rb_tok(t: Seq<char>) -> Option<bool> {
     if long_abbrev(t, "--no-rebase"@, 8) { Some(false) }
     else if long_abbrev(t, "--rebase"@, 5) || bundle_has(t, 'r', PULL_VALUELESS()) { Some(true) }
-    else if t.len() >= 9 && t.subrange(0, 9) == "--rebase="@ { Some(!is_false_value(t.subrange(9, t.len() as int))) }
-    else { None }
+    else { rb_value(t) }
 }
 /// `--autostash` / `--no-autostash` (`--autos`, `--no-au`: shortest unambiguous prefixes)
 pub open spec fn as_tok(t: Seq<char>) -> Option<bool> {
@@ -248,63 +291,95 @@ pub open spec fn last_says(a: Seq<Seq<char>>, f: spec_fn(Seq<char>) -> Option<bo
 {
     if n <= 0 || n > a.len() { None } else { match f(a[n - 1]) { Some(b) => Some(b), None => last_says(a, f, n - 1) } }
 }
-pub open spec fn cli_rebase(a: Seq<Seq<char>>) -> Option<bool> { last_says(a, |t: Seq<char>| rb_tok(t), opts_end(a)) }
-pub open spec fn cli_autostash(a: Seq<Seq<char>>) -> Option<bool> { last_says(a, |t: Seq<char>| as_tok(t), opts_end(a)) }
+pub open spec fn g_rebase(a: Seq<Seq<char>>, n: int) -> Option<bool> { last_says(a, |t: Seq<char>| rb_tok(t), n) }
+pub open spec fn g_autostash(a: Seq<Seq<char>>, n: int) -> Option<bool> { last_says(a, |t: Seq<char>| as_tok(t), n) }
+pub open spec fn cli_rebase(a: Seq<Seq<char>>) -> Option<bool> { g_rebase(a, opts_end(a)) }
+pub open spec fn cli_autostash(a: Seq<Seq<char>>) -> Option<bool> { g_autostash(a, opts_end(a)) }
 /// the configuration variable `key` read as "does pull rebase": every value other than a `false` spelling means a rebase
-pub open spec fn cfg_rebase(w: World, key: Seq<char>) -> Option<bool> { if w.cfg.contains_key(key) { Some(!is_false_value(w.cfg[key])) } else { None } }
-/// branch.<name>.rebase of the branch HEAD is on (the subsection keeps its case)
-pub open spec fn branch_key(b: Seq<char>) -> Seq<char> { "branch."@ + b + ".rebase"@ }
-pub open spec fn cfg_branch_rebase(w: World) -> Option<bool> { match w.branch { Some(b) => cfg_rebase(w, branch_key(b)), None => None } }
+pub open spec fn cfg_rebase(cfg: Map<Seq<char>, Seq<char>>, key: Seq<char>) -> Option<bool> { if cfg.contains_key(key) { Some(!is_false_value(cfg[key])) } else { None } }
+/// branch.<name>.rebase of the branch HEAD is on
+pub open spec fn cfg_branch_rebase(cfg: Map<Seq<char>, Seq<char>>, branch: Option<Seq<char>>) -> Option<bool> { match branch { Some(b) => cfg_rebase(cfg, bkey(b)), None => None } }
+/// git-config(1): branch.<name>.rebase overrides pull.rebase; no setting = merge
+pub open spec fn cfg_says_rebase(cfg: Map<Seq<char>, Seq<char>>, branch: Option<Seq<char>>) -> bool {
+    match cfg_branch_rebase(cfg, branch) { Some(b) => b, None =>
+    match cfg_rebase(cfg, "pull.rebase"@) { Some(b) => b, None => false } }
+}
 /// git-pull(1) / git-config(1): command line, then branch.<name>.rebase, then pull.rebase, then merge
 pub open spec fn git_pull_rebases(a: Seq<Seq<char>>, w: World) -> bool {
-    match cli_rebase(a) { Some(b) => b, None =>
-    match cfg_branch_rebase(w) { Some(b) => b, None =>
-    match cfg_rebase(w, "pull.rebase"@) { Some(b) => b, None => false } } }
+    match cli_rebase(a) { Some(b) => b, None => cfg_says_rebase(w.cfg, w.branch) }
 }
 /// rebase.autoStash (key as config_get_regexp spells it)
-pub open spec fn cfg_autostash(w: World) -> bool { w.cfg.contains_key("rebase.autostash"@) && is_true_value(w.cfg["rebase.autostash"@]) }
+pub open spec fn cfg_autostash(cfg: Map<Seq<char>, Seq<char>>) -> bool { cfg.contains_key("rebase.autostash"@) && is_true_value(cfg["rebase.autostash"@]) }
 /// the pull rebases AND stashes the uncommitted work around the rebase: --autostash / --no-autostash first, then rebase.autoStash
 pub open spec fn git_rebase_autostash(a: Seq<Seq<char>>, w: World) -> bool {
-    git_pull_rebases(a, w) && (match cli_autostash(a) { Some(b) => b, None => cfg_autostash(w) })
+    git_pull_rebases(a, w) && (match cli_autostash(a) { Some(b) => b, None => cfg_autostash(w.cfg) })
 }
-/// the spellings the code looks for, anywhere in the vector
-pub open spec fn exact_rebase(a: Seq<Seq<char>>) -> Option<bool> { if a.contains("--no-rebase"@) { Some(false) } else if a.contains("--rebase"@) || a.contains("-r"@) { Some(true) } else { None } }
-pub open spec fn exact_autostash(a: Seq<Seq<char>>) -> Option<bool> { if a.contains("--no-autostash"@) { Some(false) } else if a.contains("--autostash"@) { Some(true) } else { None } }
-// ---- deviation classes: argument vectors / configurations on which the code does not decide as git does (FINDINGS, REPORT.md)
-/// F2 / F3: `--rebase=<value>`, an abbreviation (`--reb`), a bundle (`-qr`), `--no-rebase` followed by `--rebase` (the last counts), a
-/// spelling behind `--`
-pub open spec fn dev_cli_rebase(a: Seq<Seq<char>>) -> bool { cli_rebase(a) != exact_rebase(a) }
-pub open spec fn dev_cli_autostash(a: Seq<Seq<char>>) -> bool { cli_autostash(a) != exact_autostash(a) }
-/// F1: branch.<name>.rebase (never read) decides differently from pull.rebase
-pub open spec fn dev_branch_rebase(a: Seq<Seq<char>>, w: World) -> bool {
-    cli_rebase(a) is None && cfg_branch_rebase(w) is Some && cfg_branch_rebase(w).unwrap() != (match cfg_rebase(w, "pull.rebase"@) { Some(b) => b, None => false })
+/// the spellings the code knows: the full words and `--rebase=<value>`
+pub open spec fn rb_x(t: Seq<char>) -> Option<bool> {
+    if t == "--no-rebase"@ { Some(false) } else if t == "--rebase"@ || t == "-r"@ { Some(true) } else { rb_value(t) }
 }
-/// pull.rebase = no / off / 0 / empty: a `false` the code does not know
-pub open spec fn dev_false_spelling(a: Seq<Seq<char>>, w: World) -> bool {
-    cli_rebase(a) is None && w.cfg.contains_key("pull.rebase"@) && is_false_value(w.cfg["pull.rebase"@]) && !ci_eq(w.cfg["pull.rebase"@], "false"@)
+pub open spec fn as_x(t: Seq<char>) -> Option<bool> { if t == "--no-autostash"@ { Some(false) } else if t == "--autostash"@ { Some(true) } else { None } }
+/// the code's reading of the first n tokens
+pub open spec fn x_rebase(a: Seq<Seq<char>>, n: int) -> Option<bool> { last_says(a, |t: Seq<char>| rb_x(t), n) }
+pub open spec fn x_autostash(a: Seq<Seq<char>>, n: int) -> Option<bool> { last_says(a, |t: Seq<char>| as_x(t), n) }
+// ---- the remaining deviation class: an option word the code does not know
+/// some option token in front of `--` is an ABBREVIATION (`--reb`, `--no-reb`, `--autos`) or a BUNDLE (`-qr`): git reads it, the code does not
+/// (the repaired findings F1 branch.<name>.rebase, F2 --rebase=<value>, F3 the last word counts, the boolean spellings and the
+/// rebase.autostash key are REQUIRED behaviour now)
+pub open spec fn dev_cli(a: Seq<Seq<char>>) -> bool {
+    exists|i: int| 0 <= i < opts_end(a) && i < a.len() && (rb_tok(#[trigger] a[i]) != rb_x(a[i]) || as_tok(a[i]) != as_x(a[i]))
 }
-/// rebase.autoStash = true in the configuration, no --autostash / --no-autostash: the code asks for the key `rebase.autoStash`, the
-/// configuration reader spells it `rebase.autostash` - the setting is never seen
-pub open spec fn dev_cfg_autostash(a: Seq<Seq<char>>, w: World) -> bool { cli_autostash(a) is None && git_pull_rebases(a, w) && cfg_autostash(w) }
-/// the decision about REBASING is git's
-pub open spec fn rebase_decided(a: Seq<Seq<char>>, w: World) -> bool { w.cfg_ok && !dev_cli_rebase(a) && !dev_branch_rebase(a, w) && !dev_false_spelling(a, w) }
-/// the decision about rebasing WITH an autostash is git's
-pub open spec fn autostash_decided(a: Seq<Seq<char>>, w: World) -> bool { rebase_decided(a, w) && !dev_cli_autostash(a) && !dev_cfg_autostash(a, w) }
-
-proof fn lemma_contains(a: Seq<Seq<char>>, t: Seq<char>)
-    ensures a.contains(t) <==> exists|i: int| 0 <= i < a.len() && a[i] == t,
-{ }
-/// the key the code asks the map for is not a key the configuration reader can produce
-proof fn lemma_autostash_key_is_not_lower()
-    ensures !plain_lower_key("rebase.autoStash"@), "rebase.autoStash"@ != "pull.rebase"@, "rebase.autoStash"@ != "rebase.autostash"@, !has_subsection("rebase.autoStash"@),
+/// the decision is git's: the configuration is readable and every option word is one the code knows
+pub open spec fn decided(a: Seq<Seq<char>>, w: World) -> bool { w.cfg_ok && !dev_cli(a) }
+/// without abbreviations / bundles the code's reading of the words is parse-options' reading
+proof fn lemma_known_words(a: Seq<Seq<char>>, n: int)
+    requires !dev_cli(a), 0 <= n <= opts_end(a), n <= a.len(),
+    ensures g_rebase(a, n) == x_rebase(a, n), g_autostash(a, n) == x_autostash(a, n),
+    decreases n
 {
-    let k = "rebase.autoStash"@;
-    reveal_strlit("rebase.autoStash"); reveal_strlit("pull.rebase"); reveal_strlit("rebase.autostash");
-    assert("rebase.autoStash"@[11] == 'S');
-    assert("rebase.autostash"@[11] == 's');
-    assert("rebase.autoStash"@.len() != "pull.rebase"@.len());
-    assert(k.len() == 16);
-    assert forall|i: int| 0 <= i < 16 && k[i] == '.' implies i == 6 by { }
+    if n > 0 { lemma_known_words(a, n - 1); assert(rb_tok(a[n - 1]) == rb_x(a[n - 1]) && as_tok(a[n - 1]) == as_x(a[n - 1])); }
+}
+proof fn lemma_opts_end_range(a: Seq<Seq<char>>)
+    ensures 0 <= opts_end(a) <= a.len(),
+{ if has_sep(a) { let i = choose|i: int| 0 <= i < a.len() && #[trigger] a[i] == "--"@; lemma_first_sep(a, i); let k = choose|k: int| sep_at(a, k); } }
+/// a vector that holds `--` has a first one
+proof fn lemma_first_sep(a: Seq<Seq<char>>, i: int)
+    requires 0 <= i < a.len(), a[i] == "--"@,
+    ensures exists|k: int| sep_at(a, k),
+    decreases i
+{
+    if forall|j: int| 0 <= j < i ==> #[trigger] a[j] != "--"@ { assert(sep_at(a, i)); }
+    else { let j = choose|j: int| 0 <= j < i && #[trigger] a[j] == "--"@; lemma_first_sep(a, j); }
+}
+/// one more token
+proof fn lemma_step(a: Seq<Seq<char>>, n: int)
+    requires 0 <= n < a.len(),
+    ensures x_rebase(a, n + 1) == step(x_rebase(a, n), rb_x(a[n])), x_autostash(a, n + 1) == step(x_autostash(a, n), as_x(a[n])),
+{ }
+pub open spec fn step(cur: Option<bool>, says: Option<bool>) -> Option<bool> { match says { Some(b) => Some(b), None => cur } }
+/// facts about the option words (lengths, and that no two of them are the same word)
+proof fn lemma_words()
+    ensures "--"@.len() == 2, "-r"@.len() == 2, "--rebase"@.len() == 8, "--rebase="@.len() == 9, "--no-rebase"@.len() == 11, "--autostash"@.len() == 11, "--no-autostash"@.len() == 14,
+        "--no-rebase"@[2] == 'n', "--autostash"@[2] == 'a', "--no-autostash"@[2] == 'n', "--rebase="@[2] == 'r', "--rebase"@[2] == 'r', "-r"@[1] == 'r', "--"@[1] == '-',
+        "--no-autostash"@[5] == 'a', "--no-rebase"@[5] == 'r', "--rebase="@[1] == '-', "--rebase="@[0] == '-',
+{
+    reveal_strlit("--"); reveal_strlit("-r"); reveal_strlit("--rebase"); reveal_strlit("--rebase="); reveal_strlit("--no-rebase"); reveal_strlit("--autostash"); reveal_strlit("--no-autostash");
+}
+/// what one token says, case by case (the arms of the scanning loop)
+proof fn lemma_token_cases(t: Seq<char>)
+    ensures
+        t == "--no-rebase"@ ==> rb_x(t) == Some(false) && as_x(t) is None,
+        t == "--rebase"@ || t == "-r"@ ==> rb_x(t) == Some(true) && as_x(t) is None,
+        "--rebase="@.is_prefix_of(t) ==> t != "--no-rebase"@ && t != "--rebase"@ && t != "-r"@ && as_x(t) is None,
+        t == "--no-autostash"@ ==> rb_x(t) is None && as_x(t) == Some(false),
+        t == "--autostash"@ ==> rb_x(t) is None && as_x(t) == Some(true),
+{
+    lemma_words();
+    let p = "--rebase="@;
+    if p.is_prefix_of(t) { assert(t.len() >= 9); assert(t.subrange(0, 9) == p); assert(t[2] == t.subrange(0, 9)[2]); assert(t[1] == t.subrange(0, 9)[1]); }
+    if t == "--no-rebase"@ || t == "--no-autostash"@ || t == "--autostash"@ || t == "--rebase"@ || t == "-r"@ {
+        if p.is_prefix_of(t) { assert(t.subrange(0, 9) == p); assert(t[2] == 'r'); assert(t.len() >= 9); }
+    }
 }
 
 // ================================================================== ParsedGitInvocation
@@ -335,38 +410,86 @@ struct PullRebaseAutostashConfig {
 }
 //#end
 
-//#item file=src/commands/hooks/fetch_hooks.rs kind=fn name=get_pull_rebase_autostash_config opaque='[{"expr": "v.to_lowercase() != \"false\"", "call": "opq_lower_ne(v, \"false\")"}, {"expr": "v.to_lowercase() == \"true\"", "call": "opq_lower_eq(v, \"true\")"}]'
+//#item file=src/commands/hooks/fetch_hooks.rs kind=fn name=is_git_false opaque='[{"expr": "value.to_lowercase()", "call": "opq_to_lower(value)"}]'
+fn is_git_false(value: &str) -> (r_: bool)
+//@     ensures r_ == is_false_value(value@),
+{
+    //@ proof { axiom_str_ext(); }
+    matches!(
+        opq_to_lower(value).as_str(),
+        "false" | "no" | "off" | "0" | ""
+    )
+}
+//#end
+
+//#item file=src/commands/hooks/fetch_hooks.rs kind=fn name=is_git_true opaque='[{"expr": "value.to_lowercase()", "call": "opq_to_lower(value)"}]'
+fn is_git_true(value: &str) -> (r_: bool)
+//@     ensures r_ == is_true_value(value@),
+{
+    //@ proof { axiom_str_ext(); }
+    matches!(opq_to_lower(value).as_str(), "true" | "yes" | "on" | "1")
+}
+//#end
+
+//#item file=src/commands/hooks/fetch_hooks.rs kind=fn name=get_pull_rebase_autostash_config opaque='[{"expr": "arg == \"--\"", "call": "opq_str_is(arg, \"--\")"}, {"expr": "arg == \"--no-rebase\"", "call": "opq_str_is(arg, \"--no-rebase\")"}, {"expr": "arg == \"--rebase\"", "call": "opq_str_is(arg, \"--rebase\")"}, {"expr": "arg == \"-r\"", "call": "opq_str_is(arg, \"-r\")"}, {"expr": "arg == \"--no-autostash\"", "call": "opq_str_is(arg, \"--no-autostash\")"}, {"expr": "arg == \"--autostash\"", "call": "opq_str_is(arg, \"--autostash\")"}, {"expr": "arg.strip_prefix(\"--rebase=\")", "call": "opq_strip_prefix(arg, \"--rebase=\")"}, {"expr": "repository .head() .ok() .and_then(|h| { h.name() .and_then(|n| n.strip_prefix(\"refs/heads/\").map(|b| b.to_string())) }) .map(|b| format!(\"branch.{}.rebase\", b))", "call": "opq_branch_key(repository)"}]'
 fn get_pull_rebase_autostash_config(
     parsed_args: &ParsedGitInvocation,
     repository: &Repository,
 ) -> (r_: PullRebaseAutostashConfig)
 //@     ensures
-//@         // C02: `git pull` is KNOWN to rebase exactly when git-pull(1) / git-config(1) say it rebases (outside the deviation classes)
-//@         rebase_decided(strs(parsed_args.command_args@), repository.w@) ==> r_.is_rebase == git_pull_rebases(strs(parsed_args.command_args@), repository.w@),
+//@         // C02: `git pull` is KNOWN to rebase exactly when git-pull(1) / git-config(1) say it rebases: the last option word, then
+//@         // branch.<name>.rebase, then pull.rebase (every option word being one the code knows, the configuration readable)
+//@         decided(strs(parsed_args.command_args@), repository.w@) ==> r_.is_rebase == git_pull_rebases(strs(parsed_args.command_args@), repository.w@),
 //@         // and to rebase WITH an autostash exactly when git stashes the uncommitted work around that rebase
-//@         autostash_decided(strs(parsed_args.command_args@), repository.w@) ==> (r_.is_rebase && r_.is_autostash) == git_rebase_autostash(strs(parsed_args.command_args@), repository.w@),
+//@         decided(strs(parsed_args.command_args@), repository.w@) ==> (r_.is_rebase && r_.is_autostash) == git_rebase_autostash(strs(parsed_args.command_args@), repository.w@),
 {
+    // Check CLI flags first - they take precedence and don't require git calls
+    let mut rebase_from_cli: Option<bool> = None;
+    let mut autostash_from_cli: Option<bool> = None;
     //@ let ghost a = strs(parsed_args.command_args@);
     //@ let ghost w = repository.w@;
-    // Check CLI flags first - they take precedence and don't require git calls
-    let rebase_from_cli = if parsed_args.has_command_flag("--no-rebase") {
-        Some(false)
-    } else if parsed_args.has_command_flag("--rebase") || parsed_args.has_command_flag("-r") {
-        Some(true)
-    } else {
-        None
-    };
+    //@ let ghost mut n: int = 0;
+    for arg in it_0: &parsed_args.command_args
+    //@     invariant_except_break
+    //@         n == it_0.index@,
+    //@         forall|j: int| 0 <= j < n ==> #[trigger] a[j] != "--"@,
+    //@         rebase_from_cli == x_rebase(a, n), autostash_from_cli == x_autostash(a, n),
+    //@     invariant
+    //@         a == strs(parsed_args.command_args@), it_0.snapshot@.remaining().len() == a.len(),
+    //@         forall|i: int| 0 <= i < a.len() ==> *(#[trigger] it_0.snapshot@.remaining()[i]) == parsed_args.command_args@[i],
+    //@     ensures
+    //@         // the LAST word in front of `--` counts
+    //@         rebase_from_cli == x_rebase(a, opts_end(a)), autostash_from_cli == x_autostash(a, opts_end(a)),
+    {
+        //@ let ghost k = it_0.index@;
+        //@ let ghost rb0 = rebase_from_cli;
+        //@ let ghost as0 = autostash_from_cli;
+        //@ proof { assert(*arg == parsed_args.command_args@[k]); assert(arg@ == a[k]); lemma_token_cases(a[k]); lemma_words(); lemma_step(a, k); }
+        if opq_str_is(arg, "--") {
+            //@ proof { lemma_sep_unique(a, n); }
+            break;
+        }
+        if opq_str_is(arg, "--no-rebase") {
+            rebase_from_cli = Some(false);
+        } else if opq_str_is(arg, "--rebase") || opq_str_is(arg, "-r") {
+            rebase_from_cli = Some(true);
+        } else if let Some(value) = opq_strip_prefix(arg, "--rebase=") {
+            //@ proof { assert("--rebase="@.is_prefix_of(a[k])) by { assert(a[k].subrange(0, 9) =~= "--rebase="@); } assert(value@ =~= a[k].subrange(9, a[k].len() as int)); }
+            rebase_from_cli = Some(!is_git_false(value));
+        } else if opq_str_is(arg, "--no-autostash") {
+            autostash_from_cli = Some(false);
+        } else if opq_str_is(arg, "--autostash") {
+            autostash_from_cli = Some(true);
+        }
+    //@ proof {
+    //@     assert(rebase_from_cli == step(rb0, rb_x(a[k])));
+    //@     assert(autostash_from_cli == step(as0, as_x(a[k])));
+    //@     n = n + 1;
+    //@ }
+    }
 
-    //@ assert(rebase_from_cli == exact_rebase(a));
-    let autostash_from_cli = if parsed_args.has_command_flag("--no-autostash") {
-        Some(false)
-    } else if parsed_args.has_command_flag("--autostash") {
-        Some(true)
-    } else {
-        None
-    };
-
-    //@ assert(autostash_from_cli == exact_autostash(a));
+    //@ proof { lemma_opts_end_range(a); if !dev_cli(a) { lemma_known_words(a, opts_end(a)); } }
+    //@ assert(!dev_cli(a) ==> rebase_from_cli == cli_rebase(a) && autostash_from_cli == cli_autostash(a));
     // If both are determined by CLI flags, no need to check config
     if let (Some(is_rebase), Some(is_autostash)) = (rebase_from_cli, autostash_from_cli) {
         return PullRebaseAutostashConfig {
@@ -375,46 +498,45 @@ fn get_pull_rebase_autostash_config(
         };
     }
 
-    //@ proof { axiom_pull_pattern(); lemma_autostash_key_is_not_lower(); }
-    // Get relevant config values in a single git call
-    // Pattern matches: pull.rebase, rebase.autoStash
+    //@ proof { axiom_pull_pattern(); }
+    // Get relevant config values in a single git call. config_get_regexp reports keys with the
+    // section and the variable name lowercased (the subsection keeps its case).
     let config = repository
-        .config_get_regexp(r"^(pull\.rebase|rebase\.autoStash)$")
+        .config_get_regexp(r"^(pull\.rebase|rebase\.autostash|branch\..*\.rebase)$")
         .unwrap_or_default();
 
+    //@ let ghost cv = cfg_view(config);
     //@ proof {
-    //@     let sel = cfg_selected(w.cfg, r"^(pull\.rebase|rebase\.autoStash)$"@);
+    //@     let sel = cfg_selected(w.cfg, r"^(pull\.rebase|rebase\.autostash|branch\..*\.rebase)$"@);
     //@     assert(w.cfg_ok ==> cfg_view(config) == sel);
     //@     assert(!w.cfg_ok ==> cfg_view(config) == Map::<Seq<char>, Seq<char>>::empty());
-    //@     assert(cfg_view(config).contains_key("pull.rebase"@) == (w.cfg_ok && w.cfg.contains_key("pull.rebase"@)));
-    //@     assert(cfg_view(config).contains_key("pull.rebase"@) ==> cfg_view(config)["pull.rebase"@] == w.cfg["pull.rebase"@]);
-    //@     assert(w.cfg_ok ==> !w.cfg.contains_key("rebase.autoStash"@));
-    //@     assert(!cfg_view(config).contains_key("rebase.autoStash"@));
+    //@     assert(w.cfg_ok ==> lookup(cfg_view(config), "pull.rebase"@) == lookup(w.cfg, "pull.rebase"@));
+    //@     assert(w.cfg_ok ==> lookup(cfg_view(config), "rebase.autostash"@) == lookup(w.cfg, "rebase.autostash"@));
+    //@     if w.cfg_ok && w.branch is Some { let b = w.branch.unwrap(); assert(lookup(cfg_view(config), bkey(b)) == lookup(w.cfg, bkey(b))); }
+    //@     assert(w.cfg_ok ==> cfg_says_rebase(cfg_view(config), w.branch) == cfg_says_rebase(w.cfg, w.branch));
+    //@     assert(w.cfg_ok ==> cfg_autostash(cfg_view(config)) == cfg_autostash(w.cfg));
     //@ }
-    // Determine rebase setting
-    let is_rebase = rebase_from_cli.unwrap_or_else(|| /*@< -> (c_: bool) ensures c_ == (cfg_view(config).contains_key("pull.rebase"@) && !ci_eq(cfg_view(config)["pull.rebase"@], "false"@)) >@*/ {
-        // Check git config: pull.rebase can be true, false, merges, interactive, or preserve
-        // Any value other than "false" means rebase mode is enabled
-        config
-            .get("pull.rebase")
-            .map(|v /*@< : &String >@*/| /*@< -> (c_: bool) ensures c_ == !ci_eq(v@, "false"@) { >@*/opq_lower_ne(v, "false")/*@< } >@*/)
+    // Determine rebase setting: branch.<name>.rebase overrides pull.rebase
+    let is_rebase = rebase_from_cli.unwrap_or_else(|| /*@< -> (c_: bool) ensures c_ == cfg_says_rebase(cv, repository.w@.branch) >@*/ {
+        let branch_key = opq_branch_key(repository);
+        branch_key
+            .and_then(|k /*@< : String >@*/| /*@< -> (c_: Option<&String>) ensures opt_rview(c_) == lookup(cv, k@) { >@*/config.get(&k)/*@< } >@*/)
+            .or_else(|| /*@< -> (c_: Option<&String>) ensures opt_rview(c_) == lookup(cv, "pull.rebase"@) { >@*/config.get("pull.rebase")/*@< } >@*/)
+            .map(|v /*@< : &String >@*/| /*@< -> (c_: bool) ensures c_ == !is_false_value(v@) { >@*/!is_git_false(v)/*@< } >@*/)
             .unwrap_or(false)
     });
 
-    //@ assert(is_rebase == (match exact_rebase(a) { Some(b) => b, None => w.cfg_ok && w.cfg.contains_key("pull.rebase"@) && !ci_eq(w.cfg["pull.rebase"@], "false"@) }));
+    //@ assert(is_rebase == (match rebase_from_cli { Some(b) => b, None => cfg_says_rebase(cfg_view(config), w.branch) }));
     // Determine autostash setting
-    let is_autostash = autostash_from_cli.unwrap_or_else(|| /*@< -> (c_: bool) ensures c_ == (cfg_view(config).contains_key("rebase.autoStash"@) && ci_eq(cfg_view(config)["rebase.autoStash"@], "true"@)) >@*/ {
+    let is_autostash = autostash_from_cli.unwrap_or_else(|| /*@< -> (c_: bool) ensures c_ == cfg_autostash(cv) >@*/ {
         // Check git config: rebase.autoStash (used when rebasing)
         config
-            .get("rebase.autoStash")
-            .map(|v /*@< : &String >@*/| /*@< -> (c_: bool) ensures c_ == ci_eq(v@, "true"@) { >@*/opq_lower_eq(v, "true")/*@< } >@*/)
+            .get("rebase.autostash")
+            .map(|v /*@< : &String >@*/| /*@< -> (c_: bool) ensures c_ == is_true_value(v@) { >@*/is_git_true(v)/*@< } >@*/)
             .unwrap_or(false)
     });
 
-    //@ assert(is_autostash == (match exact_autostash(a) { Some(b) => b, None => false }));
-    //@ proof {
-    //@     if rebase_decided(a, w) { assert(cfg_rebase(w, "pull.rebase"@) == (if w.cfg.contains_key("pull.rebase"@) { Some(!is_false_value(w.cfg["pull.rebase"@])) } else { None::<bool> })); }
-    //@ }
+    //@ assert(is_autostash == (match autostash_from_cli { Some(b) => b, None => cfg_autostash(cfg_view(config)) }));
     PullRebaseAutostashConfig {
         is_rebase,
         is_autostash,
@@ -554,10 +676,10 @@ pub fn pull_pre_command_hook(
 //@         // what it may capture is the attribution of the working log of the CURRENT head (the head BEFORE the pull), nothing else
 //@         captured_ok(*old(command_hooks_context), *final(command_hooks_context), old(repository).w@.head),
 //@         // no rebase with autostash, or a clean tree: nothing is captured
-//@         autostash_decided(strs(parsed_args.command_args@), old(repository).w@) && !(git_rebase_autostash(strs(parsed_args.command_args@), old(repository).w@) && old(repository).w@.dirty)
+//@         decided(strs(parsed_args.command_args@), old(repository).w@) && !(git_rebase_autostash(strs(parsed_args.command_args@), old(repository).w@) && old(repository).w@.dirty)
 //@             ==> final(command_hooks_context).stashed_va == old(command_hooks_context).stashed_va,
 //@         // C02: git will stash and pop uncommitted work around a rebase: its pending attribution is captured BEFORE the pull
-//@         autostash_decided(strs(parsed_args.command_args@), old(repository).w@) && git_rebase_autostash(strs(parsed_args.command_args@), old(repository).w@) && old(repository).w@.dirty
+//@         decided(strs(parsed_args.command_args@), old(repository).w@) && git_rebase_autostash(strs(parsed_args.command_args@), old(repository).w@) && old(repository).w@.dirty
 //@             && old(repository).w@.pending && old(repository).w@.head is Some
 //@             ==> final(command_hooks_context).stashed_va == Some(wl_va(old(repository).w@.head.unwrap())),
 {
@@ -754,19 +876,24 @@ fn process_completed_pull_rebase(repository: &mut Repository, original_head: &st
 /// the expected effects of `git pull` on notes and pending attribution (from the property).  old = HEAD before, new = HEAD after,
 /// captured = what the pre hook kept
 pub open spec fn restore_part(old: Seq<char>, new: Seq<char>, captured: Option<VirtualAttributions>) -> Seq<Effect> {
-    match captured { Some(va) => seq![Effect::RestoreVA { old: old, new: new, va: va }], None => Seq::empty() }     // into the working log of the NEW head
+    match captured {
+        // the captured attribution REPLACES the old head's working log: deleted first (nothing is left for the rebase migration to put
+        // over the restored attribution), then restored into the working log of the NEW head
+        Some(va) => seq![Effect::DeleteLog { base: old }, Effect::RestoreVA { old: old, new: new, va: va }],
+        None => Seq::empty(),
+    }
 }
 pub open spec fn move_part(a: Seq<Seq<char>>, w: World, old: Seq<char>, new: Seq<char>) -> Seq<Effect> {
     if was_ff(w, new) { seq![Effect::RenameLog { from: old, to: new }] }                                             // fast-forward: carried, once
     else if git_pull_rebases(a, w) { rewrite_effects(w, old, new) }                                                   // rebase: rewritten with the right old head
-    else { Seq::empty() }
+    else { seq![Effect::RenameLog { from: old, to: new }] }                                                           // merge pull: the pending attribution follows HEAD
 }
 pub open spec fn pull_effects(a: Seq<Seq<char>>, w: World, ok: bool, old: Option<Seq<char>>, captured: Option<VirtualAttributions>) -> Seq<Effect> {
     if !ok || old is None || w.head is None || old == w.head { Seq::empty() }                                         // failed / up to date: nothing
     else { restore_part(old.unwrap(), w.head.unwrap(), captured) + move_part(a, w, old.unwrap(), w.head.unwrap()) }
 }
 
-//#item file=src/commands/hooks/fetch_hooks.rs kind=fn name=pull_post_command_hook opaque='[{"expr": "repository.head().ok().and_then(|h| h.target().ok())", "call": "opq_head_target(repository)"}, {"expr": "old_head == new_head", "call": "opq_string_eq(&old_head, &new_head)"}, {"expr": "&format!( \"Fast-forward detected: {} -> {}\", old_head, new_head )", "call": "opq_msg()"}, {"expr": "repository.storage.rename_working_log(&old_head, &new_head)", "call": "opq_rename_log(repository, &old_head, &new_head)"}]'
+//#item file=src/commands/hooks/fetch_hooks.rs kind=fn name=pull_post_command_hook opaque='[{"expr": "repository.head().ok().and_then(|h| h.target().ok())", "call": "opq_head_target(repository)"}, {"expr": "old_head == new_head", "call": "opq_string_eq(&old_head, &new_head)"}, {"expr": "repository .storage .delete_working_log_for_base_commit(&old_head)", "call": "opq_delete_log(repository, &old_head)"}, {"expr": "&format!( \"Fast-forward detected: {} -> {}\", old_head, new_head )", "call": "opq_msg()"}, {"expr": "repository.storage.rename_working_log(&old_head, &new_head)", "call": "opq_rename_log(repository, &old_head, &new_head)"}]'
 pub fn pull_post_command_hook(
     repository: &mut Repository,
     parsed_args: &ParsedGitInvocation,
@@ -780,7 +907,7 @@ pub fn pull_post_command_hook(
 //@         // so does a pull that found nothing to do
 //@         opt_view(old(repository).pre_command_base_commit) == old(repository).w@.head ==> final(repository).w@.log == old(repository).w@.log,
 //@         // a fast-forward, or a non-fast-forward whose mode the code decides as git does: exactly the effects the property asks for
-//@         rebase_decided(strs(parsed_args.command_args@), old(repository).w@) || (old(repository).w@.head is Some && was_ff(old(repository).w@, old(repository).w@.head.unwrap()))
+//@         decided(strs(parsed_args.command_args@), old(repository).w@) || (old(repository).w@.head is Some && was_ff(old(repository).w@, old(repository).w@.head.unwrap()))
 //@         ==> final(repository).w@.log == old(repository).w@.log + pull_effects(strs(parsed_args.command_args@), old(repository).w@, exit_ok(exit_status),
 //@                 opt_view(old(repository).pre_command_base_commit), old(command_hooks_context).stashed_va),
 {
@@ -818,6 +945,10 @@ pub fn pull_post_command_hook(
 
     // Check if we have a stashed VA to restore (from pull --rebase --autostash)
     if let Some(stashed_va) = command_hooks_context.stashed_va.take() {
+        // The captured attribution holds everything the old head's working log held and replaces
+        // it (as after `checkout --merge`): left in place, the rebase migration below would put the
+        // old INITIAL file over the one restored here and drop what only checkpoints recorded.
+        let _ = opq_delete_log(repository, &old_head);
         restore_stashed_va(repository, &old_head, &new_head, stashed_va);
     }
 
@@ -832,13 +963,17 @@ pub fn pull_post_command_hook(
     }
 
     //@ let ghost w1 = repository.w@;
-    //@ proof { assert(rebase_decided(a, w1) == rebase_decided(a, w0)); assert(git_pull_rebases(a, w1) == git_pull_rebases(a, w0)); assert(rewrite_effects(w1, old_head@, new_head@) == rewrite_effects(w0, old_head@, new_head@)); }
+    //@ proof { assert(decided(a, w1) == decided(a, w0)); assert(git_pull_rebases(a, w1) == git_pull_rebases(a, w0)); assert(rewrite_effects(w1, old_head@, new_head@) == rewrite_effects(w0, old_head@, new_head@)); }
     // Handle committed authorship rewriting for pull --rebase
     let config = get_pull_rebase_autostash_config(parsed_args, repository);
     if config.is_rebase {
         process_completed_pull_rebase(repository, &old_head, &new_head);
+    } else {
+        // A merge pull: the uncommitted work stayed in the working tree (or was autostashed and
+        // re-applied); its pending attribution follows HEAD to the merge commit.
+        let _ = opq_rename_log(repository, &old_head, &new_head);
     }
-//@ proof { let m = move_part(a, w0, old_head@, new_head@); if rebase_decided(a, w0) { assert(repository.w@.log =~= log0 + (r + m)); } }
+//@ proof { let m = move_part(a, w0, old_head@, new_head@); if decided(a, w0) { assert(repository.w@.log =~= log0 + (r + m)); } }
 }
 //#end
 
@@ -847,70 +982,101 @@ pub fn pull_post_command_hook(
 proof fn theorem_precedence(a: Seq<Seq<char>>, w: World)
     ensures
         cli_rebase(a) is Some ==> git_pull_rebases(a, w) == cli_rebase(a).unwrap(),
-        cli_rebase(a) is None && cfg_branch_rebase(w) is Some ==> git_pull_rebases(a, w) == cfg_branch_rebase(w).unwrap(),
-        cli_rebase(a) is None && cfg_branch_rebase(w) is None && w.cfg.contains_key("pull.rebase"@) ==> git_pull_rebases(a, w) == !is_false_value(w.cfg["pull.rebase"@]),
-        cli_rebase(a) is None && cfg_branch_rebase(w) is None && !w.cfg.contains_key("pull.rebase"@) ==> !git_pull_rebases(a, w),
+        cli_rebase(a) is None && cfg_branch_rebase(w.cfg, w.branch) is Some ==> git_pull_rebases(a, w) == cfg_branch_rebase(w.cfg, w.branch).unwrap(),
+        cli_rebase(a) is None && cfg_branch_rebase(w.cfg, w.branch) is None && w.cfg.contains_key("pull.rebase"@) ==> git_pull_rebases(a, w) == !is_false_value(w.cfg["pull.rebase"@]),
+        cli_rebase(a) is None && cfg_branch_rebase(w.cfg, w.branch) is None && !w.cfg.contains_key("pull.rebase"@) ==> !git_pull_rebases(a, w),
         // rebase.autoStash matters only when rebasing
         !git_pull_rebases(a, w) ==> !git_rebase_autostash(a, w),
 { }
-/// a vector without any option word says nothing: the configuration decides (`git pull`, `git pull origin main`)
-proof fn theorem_no_flags(a: Seq<Seq<char>>)
-    requires forall|i: int| 0 <= i < a.len() ==> (#[trigger] a[i]).len() > 0 && a[i][0] != '-',
-    ensures !dev_cli_rebase(a), !dev_cli_autostash(a), cli_rebase(a) is None, cli_autostash(a) is None,
-{
-    assert(!has_sep(a)) by { if has_sep(a) { let i = choose|i: int| 0 <= i < a.len() && #[trigger] a[i] == "--"@; reveal_strlit("--"); assert(a[i][0] == '-'); } }
-    lemma_no_flags_fold(a, a.len() as int);
-    reveal_strlit("--no-rebase"); reveal_strlit("--rebase"); reveal_strlit("-r"); reveal_strlit("--no-autostash"); reveal_strlit("--autostash");
-    assert(!a.contains("--no-rebase"@)) by { if a.contains("--no-rebase"@) { let i = choose|i: int| 0 <= i < a.len() && a[i] == "--no-rebase"@; assert(a[i][0] == '-'); } }
-    assert(!a.contains("--rebase"@)) by { if a.contains("--rebase"@) { let i = choose|i: int| 0 <= i < a.len() && a[i] == "--rebase"@; assert(a[i][0] == '-'); } }
-    assert(!a.contains("-r"@)) by { if a.contains("-r"@) { let i = choose|i: int| 0 <= i < a.len() && a[i] == "-r"@; assert(a[i][0] == '-'); } }
-    assert(!a.contains("--no-autostash"@)) by { if a.contains("--no-autostash"@) { let i = choose|i: int| 0 <= i < a.len() && a[i] == "--no-autostash"@; assert(a[i][0] == '-'); } }
-    assert(!a.contains("--autostash"@)) by { if a.contains("--autostash"@) { let i = choose|i: int| 0 <= i < a.len() && a[i] == "--autostash"@; assert(a[i][0] == '-'); } }
-}
-proof fn lemma_no_flags_fold(a: Seq<Seq<char>>, n: int)
-    requires 0 <= n <= a.len(), forall|i: int| 0 <= i < a.len() ==> (#[trigger] a[i]).len() > 0 && a[i][0] != '-',
-    ensures last_says(a, |t: Seq<char>| rb_tok(t), n) is None, last_says(a, |t: Seq<char>| as_tok(t), n) is None,
-    decreases n
-{
-    if n > 0 {
-        lemma_no_flags_fold(a, n - 1);
-        let t = a[n - 1];
-        reveal_strlit("--no-rebase"); reveal_strlit("--rebase"); reveal_strlit("--rebase="); reveal_strlit("--no-autostash"); reveal_strlit("--autostash");
-        assert(t[0] != '-');
-        assert(!long_abbrev(t, "--no-rebase"@, 8)) by { if long_abbrev(t, "--no-rebase"@, 8) { assert(t[0] == "--no-rebase"@.subrange(0, t.len() as int)[0]); } }
-        assert(!long_abbrev(t, "--rebase"@, 5)) by { if long_abbrev(t, "--rebase"@, 5) { assert(t[0] == "--rebase"@.subrange(0, t.len() as int)[0]); } }
-        assert(!long_abbrev(t, "--no-autostash"@, 7)) by { if long_abbrev(t, "--no-autostash"@, 7) { assert(t[0] == "--no-autostash"@.subrange(0, t.len() as int)[0]); } }
-        assert(!long_abbrev(t, "--autostash"@, 4)) by { if long_abbrev(t, "--autostash"@, 4) { assert(t[0] == "--autostash"@.subrange(0, t.len() as int)[0]); } }
-        assert(!(t.len() >= 9 && t.subrange(0, 9) == "--rebase="@)) by { if t.len() >= 9 && t.subrange(0, 9) == "--rebase="@ { assert(t[0] == t.subrange(0, 9)[0]); } }
-        assert(rb_tok(t) is None);
-        assert(as_tok(t) is None);
-    }
-}
-/// FINDING F1 as a statement: there are configurations in which git rebases and no decision that ignores branch.<name>.rebase can say so
+/// F1 repaired, as a statement: with no word on the command line the branch's own setting decides, whatever pull.rebase says
 proof fn theorem_branch_setting_overrides(w: World, b: Seq<char>)
-    requires w.branch == Some(b), w.cfg.contains_key(branch_key(b)), !is_false_value(w.cfg[branch_key(b)]), !w.cfg.contains_key("pull.rebase"@),
-    ensures git_pull_rebases(Seq::empty(), w), dev_branch_rebase(Seq::empty(), w),
+    requires w.branch == Some(b), w.cfg.contains_key(bkey(b)),
+    ensures git_pull_rebases(Seq::empty(), w) == !is_false_value(w.cfg[bkey(b)]), !dev_cli(Seq::empty()),
 {
     let a = Seq::<Seq<char>>::empty();
     assert(!has_sep(a));
-    assert(last_says(a, |t: Seq<char>| rb_tok(t), 0) is None);
+}
+/// a token that does not start with `-` says nothing
+proof fn lemma_plain_token(t: Seq<char>)
+    requires t.len() > 0, t[0] != '-',
+    ensures rb_tok(t) is None, rb_x(t) is None, as_tok(t) is None, as_x(t) is None, t != "--"@,
+{
+    reveal_strlit("--no-rebase"); reveal_strlit("--rebase"); reveal_strlit("--rebase="); reveal_strlit("--no-autostash"); reveal_strlit("--autostash"); reveal_strlit("-r"); reveal_strlit("--");
+    assert(!long_abbrev(t, "--no-rebase"@, 8)) by { if long_abbrev(t, "--no-rebase"@, 8) { assert(t[0] == "--no-rebase"@.subrange(0, t.len() as int)[0]); } }
+    assert(!long_abbrev(t, "--rebase"@, 5)) by { if long_abbrev(t, "--rebase"@, 5) { assert(t[0] == "--rebase"@.subrange(0, t.len() as int)[0]); } }
+    assert(!long_abbrev(t, "--no-autostash"@, 7)) by { if long_abbrev(t, "--no-autostash"@, 7) { assert(t[0] == "--no-autostash"@.subrange(0, t.len() as int)[0]); } }
+    assert(!long_abbrev(t, "--autostash"@, 4)) by { if long_abbrev(t, "--autostash"@, 4) { assert(t[0] == "--autostash"@.subrange(0, t.len() as int)[0]); } }
+    assert(!"--rebase="@.is_prefix_of(t)) by { if "--rebase="@.is_prefix_of(t) { assert(t.subrange(0, 9) == "--rebase="@); assert(t[0] == t.subrange(0, 9)[0]); } }
+    assert(t != "--no-rebase"@ && t != "--rebase"@ && t != "-r"@ && t != "--no-autostash"@ && t != "--autostash"@ && t != "--"@) by {
+        assert("--no-rebase"@[0] == '-' && "--rebase"@[0] == '-' && "-r"@[0] == '-' && "--no-autostash"@[0] == '-' && "--autostash"@[0] == '-' && "--"@[0] == '-');
+    }
+}
+/// a vector without any option word says nothing and is outside the deviation class: the configuration decides (`git pull`, `git pull origin main`)
+proof fn theorem_no_flags(a: Seq<Seq<char>>)
+    requires forall|i: int| 0 <= i < a.len() ==> (#[trigger] a[i]).len() > 0 && a[i][0] != '-',
+    ensures !dev_cli(a), cli_rebase(a) is None, cli_autostash(a) is None,
+{
+    assert forall|i: int| 0 <= i < a.len() implies rb_tok(#[trigger] a[i]) == rb_x(a[i]) && as_tok(a[i]) == as_x(a[i]) by { lemma_plain_token(a[i]); }
+    lemma_opts_end_range(a);
+    lemma_no_flags_fold(a, opts_end(a));
+}
+proof fn lemma_no_flags_fold(a: Seq<Seq<char>>, n: int)
+    requires 0 <= n <= a.len(), forall|i: int| 0 <= i < a.len() ==> (#[trigger] a[i]).len() > 0 && a[i][0] != '-',
+    ensures g_rebase(a, n) is None, g_autostash(a, n) is None,
+    decreases n
+{
+    if n > 0 { lemma_no_flags_fold(a, n - 1); lemma_plain_token(a[n - 1]); }
+}
+/// F2 repaired, as a statement: `--rebase=<value>` is a word the code knows (outside the deviation class) and git reads the value
+proof fn theorem_rebase_value_is_read(t: Seq<char>)
+    requires "--rebase="@.is_prefix_of(t),
+    ensures rb_tok(t) == rb_x(t), as_tok(t) == as_x(t), rb_tok(t) == Some(!is_false_value(t.subrange(9, t.len() as int))),
+{
+    lemma_words(); lemma_token_cases(t);
+    reveal_strlit("--no-rebase"); reveal_strlit("--rebase"); reveal_strlit("--no-autostash"); reveal_strlit("--autostash");
+    assert(t.subrange(0, 9) == "--rebase="@);
+    assert(t[2] == t.subrange(0, 9)[2] && t[1] == t.subrange(0, 9)[1]);
+    assert(!long_abbrev(t, "--no-rebase"@, 8)) by { if long_abbrev(t, "--no-rebase"@, 8) { assert(t[2] == "--no-rebase"@.subrange(0, t.len() as int)[2]); } }
+    assert(!long_abbrev(t, "--rebase"@, 5));
+    assert(!bundle_has(t, 'r', PULL_VALUELESS()));
+    assert(!long_abbrev(t, "--no-autostash"@, 7)) by { if long_abbrev(t, "--no-autostash"@, 7) { assert(t[2] == "--no-autostash"@.subrange(0, t.len() as int)[2]); } }
+    assert(!long_abbrev(t, "--autostash"@, 4)) by { if long_abbrev(t, "--autostash"@, 4) { assert(t[2] == "--autostash"@.subrange(0, t.len() as int)[2]); } }
+}
+/// F3 repaired, as a statement: of `--no-rebase --rebase` the LAST word counts
+proof fn theorem_last_word_counts()
+    ensures x_rebase(seq!["--no-rebase"@, "--rebase"@], 2) == Some(true), x_rebase(seq!["--rebase"@, "--no-rebase"@], 2) == Some(false),
+{
+    lemma_words();
+    let a = seq!["--no-rebase"@, "--rebase"@]; let b = seq!["--rebase"@, "--no-rebase"@];
+    assert("--rebase"@ != "--no-rebase"@);
+    assert(a[1] == "--rebase"@ && b[1] == "--no-rebase"@);
+    assert(rb_x(a[1]) == Some(true)); assert(rb_x(b[1]) == Some(false));
 }
 /// C02, the failed / up-to-date pull: no effect at all, whatever the argument vector and the configuration
 proof fn theorem_failed_pull_changes_nothing(a: Seq<Seq<char>>, w: World, old: Option<Seq<char>>, captured: Option<VirtualAttributions>)
     ensures pull_effects(a, w, false, old, captured) == Seq::<Effect>::empty(),
         old == w.head ==> pull_effects(a, w, true, old, captured) == Seq::<Effect>::empty(),
 { }
-/// C02, rebase + autostash: the attribution captured BEFORE the pull goes into the working log of the NEW head, first and once
-proof fn theorem_restore_targets_new_head(a: Seq<Seq<char>>, w: World, old: Seq<char>, va: VirtualAttributions)
+/// C02, rebase + autostash (F4 repaired): the old head's working log is dropped FIRST, then the attribution captured BEFORE the pull goes
+/// into the working log of the NEW head; nothing later restores or deletes again - the rebase migration finds no old log to put over it
+proof fn theorem_restore_is_not_overwritten(a: Seq<Seq<char>>, w: World, old: Seq<char>, va: VirtualAttributions)
     requires w.head is Some, Some(old) != w.head,
-    ensures pull_effects(a, w, true, Some(old), Some(va))[0] == (Effect::RestoreVA { old: old, new: w.head.unwrap(), va: va }),
-        forall|i: int| 1 <= i < pull_effects(a, w, true, Some(old), Some(va)).len() ==> !(pull_effects(a, w, true, Some(old), Some(va))[i] is RestoreVA),
+    ensures pull_effects(a, w, true, Some(old), Some(va))[0] == (Effect::DeleteLog { base: old }),
+        pull_effects(a, w, true, Some(old), Some(va))[1] == (Effect::RestoreVA { old: old, new: w.head.unwrap(), va: va }),
+        forall|i: int| 2 <= i < pull_effects(a, w, true, Some(old), Some(va)).len() ==> !(pull_effects(a, w, true, Some(old), Some(va))[i] is RestoreVA) && !(pull_effects(a, w, true, Some(old), Some(va))[i] is DeleteLog),
 {
     let m = move_part(a, w, old, w.head.unwrap());
     let r = restore_part(old, w.head.unwrap(), Some(va));
-    assert(r.len() == 1);
+    assert(r.len() == 2);
     assert(m.len() <= 1);
-    assert forall|i: int| 1 <= i < (r + m).len() implies !((r + m)[i] is RestoreVA) by { assert((r + m)[i] == m[i - 1]); }
+    assert forall|i: int| 2 <= i < (r + m).len() implies !((r + m)[i] is RestoreVA) && !((r + m)[i] is DeleteLog) by { assert((r + m)[i] == m[i - 2]); }
+}
+/// F5 repaired, as a statement: a merge pull (no fast-forward, no rebase) carries the pending attribution to the merge commit, once
+proof fn theorem_merge_pull_carries(a: Seq<Seq<char>>, w: World, old: Seq<char>)
+    requires w.head is Some, Some(old) != w.head, !was_ff(w, w.head.unwrap()), !git_pull_rebases(a, w),
+    ensures pull_effects(a, w, true, Some(old), None) == seq![Effect::RenameLog { from: old, to: w.head.unwrap() }],
+{
+    assert(Seq::<Effect>::empty() + seq![Effect::RenameLog { from: old, to: w.head.unwrap() }] =~= seq![Effect::RenameLog { from: old, to: w.head.unwrap() }]);
 }
 } // verus!
 fn main() {}
